@@ -194,7 +194,7 @@ def _draw_instant(draw: Any, cfg: GenCfg, state: _State, first: bool) -> None:
     elif kind == 9 and cfg.long_gaps and state.lot_instants:
         # land around "some lot + 365 days" (holding-period threshold)
         lot_us = draw(st.sampled_from(state.lot_instants))
-        target = lot_us + 365 * DAY_US + draw(st.sampled_from([-US, -1, 0, 1, US, DAY_US]))
+        target = lot_us + 365 * DAY_US + draw(st.sampled_from([-US, -1, 0, 1, US, DAY_US, -3 * 3600 * US, 3 * 3600 * US, -10 * 3600 * US, 10 * 3600 * US, -20 * 3600 * US, 20 * 3600 * US]))
         delta = max(1, target - prev_us)
     elif cfg.long_gaps:
         delta = draw(st.integers(150, 800)) * DAY_US
